@@ -13,6 +13,7 @@ from typing import List
 from typing import Mapping
 from typing import MutableMapping
 from typing import MutableSequence
+from typing import Sequence
 from typing import TypeVar
 from typing import Union
 
@@ -38,6 +39,30 @@ def _member_name(
     if isinstance(target, int) and target not in parent:
         return str(target)
     return target
+
+
+def _json_equal(left: object, right: object) -> bool:
+    """RFC 6902 section 4.6 equality: same JSON type, equal at every depth."""
+    # Remember 1 == True and 0 == False in Python.
+    if isinstance(left, bool) or isinstance(right, bool):
+        return isinstance(left, bool) and isinstance(right, bool) and left == right
+
+    if isinstance(left, Mapping) and isinstance(right, Mapping):
+        return len(left) == len(right) and all(
+            key in right and _json_equal(val, right[key]) for key, val in left.items()
+        )
+
+    if (
+        isinstance(left, Sequence)
+        and isinstance(right, Sequence)
+        and not isinstance(left, str)
+        and not isinstance(right, str)
+    ):
+        return len(left) == len(right) and all(
+            _json_equal(a, b) for a, b in zip(left, right)  # noqa: B905
+        )
+
+    return left == right
 
 
 class Op(ABC):
@@ -329,7 +354,7 @@ class OpTest(Op):
     ) -> Union[MutableSequence[object], MutableMapping[str, object]]:
         """Apply this patch operation to _data_."""
         _, obj = self.path.resolve_parent(data)
-        if not obj == self.value:
+        if not _json_equal(obj, self.value):
             raise JSONPatchTestFailure
         return data
 
